@@ -97,3 +97,8 @@ fn c08_2a_add_timer_deadline_is_exact() {
     kani::cover!(nanos % 1_000_000 != 0, "non-integral millisecond duration");
     std::mem::forget(h);
 }
+
+/// white-box constructor for harnesses outside this module
+pub(crate) fn mk_timeout_data<T>(data: T) -> TimeoutData<T> {
+    TimeoutData { time: 0, data }
+}
